@@ -16,7 +16,9 @@ def import_medit(path):
         data = deque([x.strip() for x in meditf.readlines() if x.strip()]) # ignore blank lines
                 
     while data:
-        line = data.popleft()
+        line = data.popleft().split()
+        if len(line)==2: data.appendleft(line[1]) # keyword and number on the same line
+        line = line[0]
 
         if line=="End": break # end of file
 
